@@ -17,7 +17,11 @@ var regOnce sync.Once
 
 func registerTypes() {
 	regOnce.Do(func() {
-		node.GetRegistry().RegisterSourceType("e5src", func() node.Source { return &srcT{} }, reflect.TypeOf(""))
+		node.GetRegistry().RegisterSourceType("e5src", func() node.Source {
+			s := &srcT{}
+			srcInstances = append(srcInstances, s)
+			return s
+		}, reflect.TypeOf(""))
 		node.GetRegistry().RegisterNodeType("e5node", func() node.Node { return &nodeT{} }, reflect.TypeOf(""), reflect.TypeOf(""))
 	})
 }
@@ -375,7 +379,15 @@ func genRoute(r *sx.Rng, small bool) sx.Tree {
 		}
 		msgs = append(msgs, msgTree(t, utf8String(r, 3, 10), payload(r, 16)))
 	}
-	return sx.T(sx.L(11), src, sx.T(roots...), sx.T(msgs...))
+	// the supervisor replaces a failed source by a fresh instance: messages after that go to the new one
+	restarts := []int64{}
+	if r.Chance(30) {
+		restarts = append(restarts, int64(r.Intn(len(msgs)+1)))
+		if len(msgs) < 3 {
+			msgs = append(msgs, msgs[r.Intn(len(msgs))])
+		}
+	}
+	return sx.T(sx.L(11), src, sx.T(roots...), sx.T(msgs...), sx.Ints(restarts...))
 }
 
 // ------------------------------------------------------------------ kind 12
